@@ -31,6 +31,7 @@ def universes(tier, seed):
         out.append((f"F3c[{seed % 8}/8]", [("idx", 3, i) for i in U.shard(U.F3_indices(True), seed, 8)], ALL[:2]))
         out.append((f"MAA3[{seed % 256}/256]", [("idx", 3, i) for i in U.shard(U.catalogue("maa"), seed, 256)], [ALL[0], ALL[3]]))
         out.append((f"NFVS3[{seed % 1024}/1024]", [("idx", 3, i) for i in U.shard(U.catalogue("nfvs"), seed, 1024)], [ALL[0], ALL[3]]))
+        out.append((f"U3c[idx={seed % 8191} mod 8191]", [("idx", 3, i) for i in U.U3c_shard(seed, 8191)], [ALL[0]]))
     else:
         out.append(("MULTI3", [("idx", 3, i) for i in U.catalogue("multi")], ALL))
         out.append(("NFVS3_multi", [("idx", 3, i) for i in U.catalogue("nfvs_multi")], ALL))
@@ -38,6 +39,7 @@ def universes(tier, seed):
         out.append((f"MAA3[{seed % 16}/16]", [("idx", 3, i) for i in U.shard(U.catalogue("maa"), seed, 16)], ALL))
         out.append((f"NFVS3[{seed % 64}/64]", [("idx", 3, i) for i in U.shard(U.catalogue("nfvs"), seed, 64)], ALL[:2]))
         out.append(("P4c", [("p4", a, b) for a, b in U.P4_pairs(True)], ALL[:2]))
+        out.append((f"U3c[idx={seed % 509} mod 509]", [("idx", 3, i) for i in U.U3c_shard(seed, 509)], [ALL[0]]))
     return out
 
 
